@@ -283,7 +283,13 @@ def run(ctx, out):
     # binding self-test: one corrupted field / one removed call must be rejected
     import copy
 
-    base = next(t for t in traces if len(t["events"]) >= 3)
+    # (on a trace whose first call changes the recorded state: otherwise a removed call cannot be noticed)
+    base = next((t for t in traces if len(t["events"]) >= 3 and t["events"][0]["st"] != t["events"][1]["st"] and t["events"][0]["st"]["stats"]["total"] > 0), None)
+    if base is None:
+        if out.violations or out.drift:
+            out.note("binding self-test skipped: no recorded trace is suitable")
+            return
+        raise tlc.MachineryError("binding self-test: no recorded trace with >= 3 state-changing calls")
     m1 = copy.deepcopy(base)
     m1["id"] = "bind-total"
     m1["events"][1]["st"]["stats"]["total"] += 1
